@@ -796,9 +796,13 @@ where
     S::Error: Send,
 {
     let p = predicate.clone();
+    #[cfg(essential_base_verif)]
+    let verif_run_mode = ctx.run_mode;
 
     // Run all nodes that have all their inputs in parallel
     let run = |ix: u16, parents: Vec<Arc<(Stack, Memory)>>| {
+        #[cfg(essential_base_verif)]
+        verif::record(solution_index, ix, &parents, verif_run_mode);
         let program = get_program.get_program(&predicate.nodes[ix as usize].program_address);
         let ctx = ProgramCtx {
             parents,
@@ -1195,3 +1199,97 @@ where
 
     Ok((out, gas_spent))
 }
+
+/// Hooks for an external verification harness.
+///
+/// Only compiled with `--cfg essential_base_verif`: thin wrappers over private helpers
+/// and a recorder of program runs. Nothing here is used by the crate itself.
+#[cfg(essential_base_verif)]
+pub mod verif {
+    use super::*;
+    use std::sync::Mutex;
+
+    /// A recorded program run: solution index, node index, parent inputs and run mode.
+    pub type Run = (SolutionIndex, u16, Vec<(Vec<Word>, Vec<Word>)>, RunMode);
+
+    static RUN_LOG: Mutex<Vec<Run>> = Mutex::new(Vec::new());
+
+    pub(super) fn record(
+        solution_index: SolutionIndex,
+        ix: u16,
+        parents: &[Arc<(Stack, Memory)>],
+        run_mode: RunMode,
+    ) {
+        let inputs = parents
+            .iter()
+            .map(|p| (p.0.to_vec(), p.1.to_vec()))
+            .collect();
+        RUN_LOG
+            .lock()
+            .unwrap()
+            .push((solution_index, ix, inputs, run_mode));
+    }
+
+    /// Take the runs recorded so far.
+    pub fn take_runs() -> Vec<Run> {
+        std::mem::take(&mut *RUN_LOG.lock().unwrap())
+    }
+
+    /// `create_parent_map`; the error is the index of the node with invalid edges.
+    pub fn parent_map(predicate: &Predicate) -> Result<BTreeMap<u16, Vec<u16>>, usize> {
+        create_parent_map::<()>(predicate).map_err(|e| match e {
+            PredicateError::InvalidNodeEdges(ix) => ix,
+            _ => usize::MAX,
+        })
+    }
+
+    /// `parallel_topo_sort`; the error is the reported node index.
+    pub fn topo_sort(
+        predicate: &Predicate,
+        parent_map: &BTreeMap<u16, Vec<u16>>,
+    ) -> Result<Vec<Vec<u16>>, usize> {
+        parallel_topo_sort::<()>(predicate, parent_map).map_err(|e| match e {
+            PredicateError::InvalidNodeEdges(ix) => ix,
+            _ => usize::MAX,
+        })
+    }
+
+    /// `find_deferred`, sorted.
+    pub fn deferred(
+        predicate: &Predicate,
+        is_deferred: impl Fn(&essential_types::predicate::Node) -> bool,
+    ) -> Vec<u16> {
+        let mut v: Vec<u16> = find_deferred(predicate, is_deferred).into_iter().collect();
+        v.sort();
+        v
+    }
+
+    /// `should_cache`.
+    pub fn cached(node: u16, predicate: &Predicate, deferred: &[u16]) -> bool {
+        should_cache(node, predicate, &deferred.iter().copied().collect())
+    }
+
+    /// `next_key`.
+    pub fn successor(key: Key) -> Option<Key> {
+        next_key(key)
+    }
+
+    /// `read_or_fallback` over the given post-state entries (contract, key, value).
+    pub fn read_post<S: StateRead>(
+        entries: &[(ContentAddress, Key, Value)],
+        state: &S,
+        contract_addr: ContentAddress,
+        key: Key,
+        num_values: usize,
+    ) -> Result<Vec<Vec<Word>>, S::Error> {
+        let mut post = PostState::default();
+        for (c, k, v) in entries {
+            post.state
+                .entry(c.clone())
+                .or_default()
+                .insert(k.clone(), v.clone());
+        }
+        read_or_fallback(&post, state, contract_addr, key, num_values)
+    }
+}
+
